@@ -1386,6 +1386,129 @@ func (p *pipeGen) purgeCase() {
 	p.getAll(g, netip.Prefix{})
 }
 
+// expiry: nested cuts and failure states, some of them EXPIRED (still in the maps): an expired
+// state is never an answer on any route, the decoded cut lookup removes the expired cuts it walks
+// past (compared at `pipe dump`) and what every later lookup returns is unchanged by that.
+func (p *pipeGen) expiryCase() {
+	r := p.r
+	p.start()
+	base := genLabels(r)
+	for len(base) < 3 {
+		base = append([][]byte{genLabel(r)}, base...)
+	}
+	if len(wireOf(base)) > 180 {
+		base = base[len(base)-3:]
+		for i := range base {
+			if len(base[i]) > 40 {
+				base[i] = base[i][:40]
+			}
+		}
+	}
+	cl := genLabel(r)
+	if len(cl) > 60 {
+		cl = cl[:60]
+	}
+	child := append([][]byte{cl}, base...)
+	class := vlib.Pick(r, []int{1, 1, 1, 3})
+	nm := func(ls [][]byte) string { return fmt.Sprintf("%s,0,%d", nameTok(ls), class) }
+	levels := [][][]byte{child, base, base[1:], base[2:]}
+	lookups := func() {
+		for _, ls := range [][][]byte{child, flipCase(r, child), base, oneByte(r, child)} {
+			switch r.Intn(4) {
+			case 0:
+				p.op("pipe cget msg %s", nm(ls))
+			case 1:
+				p.op("pipe cget wire %s", nm(ls))
+			default:
+				g := gid{ls: ls, qtype: vlib.Pick(r, qtypes), class: class, cd: r.Chance(1, 5)}
+				c := netip.Prefix{}
+				if p.ecs && r.Chance(1, 5) {
+					c = genPrefix(r, false)
+				}
+				p.op("pipe get %s %s,%d,%d,%s %s", vlib.Pick(r, []string{"msg", "wire", "store"}), nameTok(g.ls), g.qtype, g.class, vlib.B(g.cd), fmtScope(c))
+			}
+			p.op("pipe dump")
+		}
+	}
+	if r.Chance(2, 3) {
+		var stored [][][]byte
+		for _, ls := range levels {
+			if r.Chance(2, 3) {
+				if r.Chance(1, 5) { // also reachable under another level's hash
+					p.op("pipe cset %s %d c=%s", nm(ls), p.nextID(), nm(vlib.Pick(r, levels)))
+				} else {
+					p.op("pipe cset %s %d -", nm(ls), p.nextID())
+				}
+				stored = append(stored, ls)
+			}
+		}
+		if r.Chance(1, 4) {
+			p.op("pipe cset %s,0,%d %d -", nameTok(base), 4-class, p.nextID()) // the other class stays live
+		}
+		lookups()
+		for _, ls := range stored {
+			if r.Chance(1, 2) {
+				p.op("pipe cexp %s", nm(flipCase(r, ls)))
+			}
+		}
+		p.op("pipe cexp %s", nm(oneByte(r, base))) // nothing stored there
+		p.op("pipe dump")
+		// the byte route first (removes nothing), then the decoded ones, then everything again
+		p.op("pipe cget wire %s", nm(child))
+		p.op("pipe dump")
+		lookups()
+		lookups()
+		if r.Chance(1, 2) { // a re-record revives the name
+			p.op("pipe cset %s %d -", nm(vlib.Pick(r, levels)), p.nextID())
+			lookups()
+		}
+		if r.Chance(1, 3) {
+			p.purge(gid{ls: child, qtype: vlib.Pick(r, qtypes), class: class})
+		}
+		return
+	}
+	// failure states: question-kind in both partitions and zone-kind on the way up, some expired
+	qt := vlib.Pick(r, qtypes)
+	var ids []int
+	for _, cd := range []bool{false, true} {
+		if r.Chance(2, 3) {
+			g := gid{ls: child, qtype: qt, class: class, cd: cd}
+			if p.ecs && r.Chance(1, 4) {
+				g.scope = genPrefix(r, false)
+			}
+			id := p.nextID()
+			p.op("pipe fset own q %s %d", g.tok(), id)
+			ids = append(ids, id)
+		}
+	}
+	for _, ls := range levels[1:] {
+		if r.Chance(1, 2) {
+			id := p.nextID()
+			p.op("pipe fset own z %s %d", nm(ls), id)
+			ids = append(ids, id)
+		}
+	}
+	flook := func() {
+		for _, cd := range []bool{false, true} {
+			g := gid{ls: vlib.Pick(r, [][][]byte{child, flipCase(r, child), base}), qtype: qt, class: class, cd: cd}
+			p.op("pipe fget msg %s", g.tok())
+			p.op("pipe fget store %s", g.tok())
+			p.op("pipe fget wire %s", g.tok())
+			p.op("pipe get %s %s,%d,%d,%s -", vlib.Pick(r, []string{"msg", "wire", "store"}), nameTok(g.ls), g.qtype, g.class, vlib.B(g.cd))
+		}
+		p.op("pipe dump")
+	}
+	flook()
+	for _, id := range ids {
+		if r.Chance(1, 2) {
+			p.op("pipe fexp %d", id)
+		}
+	}
+	p.op("pipe fexp %d", p.id+1000) // unknown state
+	flook()
+	flook()
+}
+
 func (p *pipeGen) unicodePurgeCase() {
 	p.start()
 	// stored under a scope: K (Kelvin sign) / long s / raw high octets; purge the ASCII look-alike
@@ -1542,6 +1665,8 @@ func gen(r *vlib.R, n int, tier string, emit func(string)) {
 		default:
 			if r.Chance(1, 3) {
 				p.unicodePurgeCase()
+			} else if r.Chance(1, 2) {
+				p.expiryCase()
 			} else {
 				p.purgeCase()
 			}
